@@ -1,6 +1,7 @@
 """C14 — batching, parallelism and caching are operational only.
 
-Case kinds
+Case kinds (round 5: batch cases with "bench": the Benchmark facade over whole reactions; runtime/batch_jobs cases with "single" are evaluated by
+the worker-process model)
   hist     history driven directly at batch_reactor._RuleApplier (stub `execute`):
            {"cache":bool,"max":int,"alloc":mode,"aseed":int,"ops":[["new",content,cyclic]|["app",i,j,inv]|["del",i]|["gc"]]}
   batch    BatchReactor.fit calls on one BatchReactor object:
@@ -31,7 +32,7 @@ from ..tok import S
 
 PID = "C14"
 COQ_HEADER = ("From Coq Require Import NArith List Bool.\nImport ListNotations.\n"
-              "From SK Require Import lib.Tok model.C14_Model model.C14_CrnModel model.C14_WorkersModel model.C14_BenchModel.\nLocal Open Scope N_scope.\n")
+              "From SK Require Import lib.Tok model.C14_Model model.C14_CrnModel model.C14_WorkersModel model.C14_BenchModel model.C14_InputsModel.\nLocal Open Scope N_scope.\n")
 SHARD = 40
 IMPL_TIMEOUT = 1500
 COQ_TIMEOUT = 900
@@ -472,6 +473,9 @@ def coq_case(case):
         jobs = clist([cnat(j) for j in case["jobs"]])
         if case["what"] == "validate":
             return "run_validate %s %s" % (jobs, clist([clist([cbool(x) for x in col]) for col in side["cols"]]))
+        if case.get("form") == "mixed":
+            kind = dict(str="IStr", dict="IDictWith", nokey="IDictWithout", other="IOther")
+            return "run_balance_items %s %s" % (jobs, clist([cpair(kind[k_], cbool(x)) for k_, x in zip(side["kinds"], side["verdicts"])]))
         return "run_balance %s %s" % (jobs, clist([cbool(x) for x in side["verdicts"]]))
     if k == "cluster":
         graphs = [_cluster_graph(g) for g, _ in case["items"]]
@@ -716,11 +720,11 @@ def _impl_runtime(case):      # noqa: F811
     if case["what"] == "balance":
         vals = _runtime_result(case, consume=False)
         ref = [v for lab, v in vals if lab == "__ref__"][0]
-        _write_side(case, dict(verdicts=[bool(x) for x in ref]))
+        _write_side(case, dict(verdicts=[bool(x) for x in ref], kinds=[d.get("kind") for d in case["data"]]))
         # a returned row is identified by its record number "n" (unique per row; the same reaction occurs in several rows) and reported
         # as the POSITION of that row in the input; string forms: rows are identified by their (distinct) reaction
         posn = {d["n"]: i for i, d in enumerate(case["data"])}
-        posr = {d["reactions"]: i for i, d in enumerate(case["data"])}
+        posr = {d["reactions"]: i for i, d in enumerate(case["data"]) if d.get("kind", "str") == "str"}
         row = lambda d: posn.get(d["n"], -1) if "n" in d else posr.get(d["reactions"], -1)
         return [[[row(d) for d in v[0]], [row(d) for d in v[1]]] for lab, v in vals if lab.startswith("n_jobs=")]
     if _in_model(case):
@@ -1000,7 +1004,10 @@ def _runtime_cases(tier, rng, us, ec):
         cases.append(dict(kind="runtime", what="validate", data=vdata(17, 3, False), jobs=[1, 2], opts=dict(ignore_aromaticity=True, ignore_tautomers=False)))
         cases.append(dict(kind="runtime", what="validate", data=vdata(9, 11), jobs=[1, 2, 5], method="ITS"))
         cases.append(dict(kind="runtime", what="validate", data=vdata(1, 5), jobs=[1, 2]))
+        cases.append(dict(kind="runtime", what="validate", data=vdata(11, 2), jobs=[1, 3], form="df"))     # pandas DataFrame input
+        # (an empty table raises ValueError in mapping_success_rate for every worker count alike: not a case)
     else:
+        cases.append(dict(kind="runtime", what="validate", data=vdata(23, 2), jobs=[1, 2, 3], form="df"))
         cases.append(dict(kind="runtime", what="validate", data=vdata(70, 0), jobs=list(range(1, 9))))
         cases.append(dict(kind="runtime", what="validate", data=vdata(33, 9), jobs=[1, 2, 3, 4], method="ITS"))
         cases.append(dict(kind="runtime", what="validate", data=vdata(17, 3, False), jobs=[1, 2], opts=dict(ignore_aromaticity=True, ignore_tautomers=False)))
@@ -1029,6 +1036,11 @@ def _runtime_cases(tier, rng, us, ec):
             distinct.append(dict(reactions=d["reactions"], n=d["n"]))
     cases.append(dict(kind="runtime", what="balance", data=distinct[:12], jobs=[1, 2, 3], form="strings"))
     cases.append(dict(kind="runtime", what="balance", data=distinct[1:2], jobs=[1, 2], form="string"))
+    # parse_input's item kinds mixed in one list: strings, dicts with the key, dicts without it, foreign values (the last two are skipped)
+    mixed = []
+    for i, d in enumerate(distinct[:14] if q else distinct[:40]):
+        mixed.append(dict(reactions=d["reactions"], n=i, kind=["dict", "str", "nokey", "dict", "other", "str", "dict"][(i + i0) % 7]))
+    cases.append(dict(kind="runtime", what="balance", data=mixed, jobs=[1, 2, 3], form="mixed"))
     cases.append(dict(kind="runtime", what="balance", data=[], jobs=[1, 2]))
     cases.append(dict(kind="runtime", what="syncrn",
                       rules=["[C:1][OH:2]>>[C:1]=[O:2]" if False else "[CH2:1][OH:2].[O:3]=[C:4][OH:5]>>[CH2:1][O:5][C:4]=[O:3].[OH2:2]",
@@ -1169,6 +1181,11 @@ def gen_cases(tier, rng):
              dict(base, rules=[E_, D_], rule_names=["E", "D"], seeds=["CCO", "CC(=O)O"], repeats=0),
              dict(base, rules=[D_], rule_names=["D"], seeds=["CCO"], repeats=3),
              dict(base, rules=[E_, D_], rule_names=["E", "D"], seeds=["CCO", "CCO", "OCC"], repeats=1, builds=[["CCO"], ["CCO"], []])]
+    # the hydrogen / strategy options must reach SynCRN's worker processes too: templates written with explicit hydrogens, on which the
+    # option combinations give different networks (1 event with implicit templates, 2 without)
+    hb = dict(base, rules=list(H_RULES), rule_names=["HE", "HB", "HH"], seeds=["CC(=O)O", "CO", "CCBr", "O", "C=CC"], repeats=1, workers=[1, 2])
+    slow += [dict(hb, explicit_h=False, implicit_temp=False), dict(hb, explicit_h=True, implicit_temp=False, workers=[2, 3]),
+             dict(hb, explicit_h=False, implicit_temp=False, strategy=rng.choice(["comp", "all", "bt"]), repeats=2, workers=[3])]
     # the slow cases (seconds each, they start process pools) are spread evenly through the list: the check's worker pool
     # hands out consecutive chunks, a block of them would be run by one worker one after the other
     out = []
@@ -1294,7 +1311,8 @@ LEVEL_TEXT = ("Machine-checked proof (Coq) over an executable heap+cache state m
               "carries the index of the rule that produced it, and validate_smiles / dicts_balance_check return, for every worker count, the per-row "
               "results of the single-row entry points in input order; and over a model of worker processes (a task is pickled: the applier arrives as a copy whose cache keys "
               "are the parent's addresses and whose pinned objects are copies): for every parent history, every shipped cache, every address assignment and every legal "
-              "worker trace each application returns execute(contents), and fit with entry-level or rule-level workers = map single for every order-preserving cut of the entry list. "
+              "worker trace each application returns execute(contents), and fit with entry-level or rule-level workers = map single for every order-preserving cut of the entry list; "
+              "fit calls with per-call entry lists on one object and the Benchmark facade (forward over the reactant sides, backward over the product sides) give every entry its own single-entry results. "
               "The model is tied to the code by replaying the observed id()/deallocation trace of every generated run through the machine, and the "
               "serial run's (rule, mixture) -> products table of every network-expansion case through the build model (compared with the serial and "
               "the parallel runs with 1, 2, 3 workers on full event records).")
